@@ -76,6 +76,7 @@ func c08Cases(tier string, seed int64) []core.Case {
 			}})
 		}
 	}
+	cases = append(cases, sharedFlushCases("C08", tier)...)
 	return cases
 }
 
